@@ -35,7 +35,8 @@
       acknowledgement.  What is demanded is that everything ACCEPTED is served completely and
       correctly, that a refusal changes nothing, and that nothing is refused while nothing is going on.)
      ServedWhenIdle       a request is refused only while some request is in progress
-     RefusedHadEffect     a refused request caused no memory operation, persist packet or callback
+     RefusedHadEffect     a refused request caused no memory operation, parameter write, persist packet
+                          or callback
      SpuriousTraffic      every memory write/read, parameter write and persist packet belongs to a
                           request in progress.  Attribution: an operation that appears before the call
                           of a request has returned belongs to that request; otherwise to the oldest
